@@ -168,7 +168,7 @@ def task(p, k, rows, tier, seed):
     conc = []
     for e in seeded_envs(random.Random(seed + 31), 2):
         try:
-            got = float_run(p, e, k, rows)
+            got = float_run(p, e, k if k != "sym" else 3.0, rows)
         except pyh.GateRejected:
             continue
         except Exception as ex:
@@ -201,7 +201,7 @@ def task(p, k, rows, tier, seed):
     def harness():
         with installed(), quiet():
             calmap = pyh.sym_calibration_map(p, env)
-            ad = make_adapter(p, calmap, {c: SymReal(pn[c]) for c in p.control}, {key: {r: SymReal(sn[key][r]) for r in p.sensors[key]} for key in p.sensors}, SymReal(z3.Real("k")) if k == "sym" else k, max_dt=MAX_DT_CFG)
+            ad = make_adapter(p, calmap, {c: SymReal(pn[c]) for c in p.control}, {key: {r: SymReal(sn[key][r]) for r in p.sensors[key]} for key in p.sensors}, SymReal(z3.Real("kthr")) if k == "sym" else k, max_dt=MAX_DT_CFG)
             Xo = np.empty((rows, W), dtype=object)
             for r in range(rows):
                 for j in range(W):
@@ -229,7 +229,7 @@ def task(p, k, rows, tier, seed):
             return tr, tr2, mh, sc, params0, params1, snap0, hand, trace, trb, handb
 
     cfg = {"gate": "assume", "inverse": "closed", "any_gate": "assume-false", "prune": False, "assume_false_sites": [("transform", "< 0.0"), ("mahalanobis", "< 0.0")]}
-    ass = assumes + ([z3.Real("k") > 0] if k == "sym" else []) + ([z3.Real("k2") > 0] if k is None else [])
+    ass = assumes + ([z3.Real("kthr") > 0] if k == "sym" else []) + ([z3.Real("k2") > 0] if k is None else [])
     leaves = explore(harness, assumes=ass, config=cfg, max_paths=64)
     part.leaves(leaves)
     bad = [l for l in leaves if l.status != "ok"]
@@ -252,7 +252,7 @@ def task(p, k, rows, tier, seed):
 
         def mk_replay(what, idx):
             def replay(e):
-                got = float_run(p, e, k if k != "sym" else float(e.get("k", 3.0)), rows)
+                got = float_run(p, e, k if k != "sym" else float(e.get("kthr", 3.0)), rows)
                 if what == "transform":
                     r_, s_ = divmod(idx, nsens)
                     return {"impl": float(got["transform"][r_, s_]), "spec": float(got["hand"][r_, s_])}
